@@ -272,16 +272,8 @@ func runC07(c *core.Ctx) {
 			return false
 		}
 		base := g.Params[0].Name()
-		closedEdge := func(b *ssa.BasicBlock) bool {
-			for _, cnd := range core.EdgeFacts(b) {
-				n := core.Normalize(cnd)
-				if n.True && flagRead(p, n.V, base, "isClosed", 0) {
-					return true
-				}
-			}
-			return false
-		}
-		min, _ := core.PathCount(g, func(ins ssa.Instruction) int {
+		closedEdge := flagEdge(p, base, "isClosed", true)
+		min, _ := core.PathCountEdges(g.Blocks[0], nil, func(ins ssa.Instruction) int {
 			if isWakeSend(ins) {
 				return 1
 			}
@@ -401,7 +393,8 @@ func runC07(c *core.Ctx) {
 			if !isRet {
 				return
 			}
-			b, isAdd := core.RetVals(r)[0].(*ssa.BinOp)
+			// the value returned on the not-closed path (a single return may merge it with the closed path's 0)
+			b, isAdd := liveValue(core.Resolve(core.RetVals(r)[0]), flagEdge(p, base, "isClosed", true)).(*ssa.BinOp)
 			if !isAdd || b.Op != token.ADD {
 				return
 			}
